@@ -460,6 +460,74 @@ func init() {
 				return true
 			})
 		}
+		// (e) NewConfig: the leaf key (`priv:` field) is generated, never taken from the CA key parameter, and that
+		// parameter flows into the `capriv:` field only.
+		leafKeyGenerated := false
+		var caKeyFlows []string
+		if fd := funcDecl(f, "", "NewConfig"); fd != nil && fd.Body != nil && fd.Type.Params != nil && len(fd.Type.Params.List) >= 2 {
+			pl := fd.Type.Params.List[len(fd.Type.Params.List)-1]
+			caParam := ""
+			if len(pl.Names) > 0 {
+				caParam = pl.Names[len(pl.Names)-1].Name
+			}
+			privVar := ""
+			ast.Inspect(fd.Body, func(n ast.Node) bool {
+				if kv, ok := n.(*ast.KeyValueExpr); ok {
+					if id, ok := kv.Key.(*ast.Ident); ok {
+						if id.Name == "priv" {
+							privVar = src(kv.Value)
+						}
+						uses := false
+						ast.Inspect(kv.Value, func(m ast.Node) bool {
+							if v, ok := m.(*ast.Ident); ok && v.Name == caParam {
+								uses = true
+							}
+							return true
+						})
+						if uses {
+							caKeyFlows = append(caKeyFlows, id.Name)
+						}
+					}
+				}
+				return true
+			})
+			// every definition of privVar is `… := <pkg>.GenerateKey(…)`; any other use of the CA parameter counts as a flow
+			defs, gen := 0, 0
+			ast.Inspect(fd.Body, func(n ast.Node) bool {
+				switch x := n.(type) {
+				case *ast.AssignStmt:
+					for i, l := range x.Lhs {
+						if src(l) != privVar || privVar == "" {
+							continue
+						}
+						defs++
+						rhs := x.Rhs[0]
+						if len(x.Rhs) == len(x.Lhs) {
+							rhs = x.Rhs[i]
+						}
+						if c, ok := rhs.(*ast.CallExpr); ok {
+							if sel, ok := c.Fun.(*ast.SelectorExpr); ok && sel.Sel.Name == "GenerateKey" {
+								gen++
+							}
+						}
+					}
+					for _, rh := range x.Rhs {
+						ast.Inspect(rh, func(m ast.Node) bool {
+							if v, ok := m.(*ast.Ident); ok && v.Name == caParam {
+								caKeyFlows = append(caKeyFlows, "var:"+src(x.Lhs[0]))
+							}
+							return true
+						})
+					}
+				}
+				return true
+			})
+			leafKeyGenerated = privVar != "" && defs > 0 && defs == gen
+		}
+		sort.Strings(caKeyFlows)
+		g.def("leafKeyGenerated", "Bool", strconv.FormatBool(leafKeyGenerated))
+		g.def("caKeyFlowsTo", "List String", leanList(caKeyFlows))
+
 		g.def("verifiedHitReturns", "Nat", strconv.Itoa(verified))
 		g.def("unverifiedHitReturns", "Nat", strconv.Itoa(unverified))
 	})
